@@ -17,7 +17,7 @@
     struct xrelay *xr = malloc(sizeof(struct xrelay)); \
     __CPROVER_assume(xr != NULL); \
     struct xfwd *relay = XV_DIR == 0 ? &xr->fwd0 : &xr->fwd1; \
-    xv_own_data = &relay->data; \
+    xv_hold_buf = relay->data; \
     xv_src = XV_DIR; \
     /* pointer members are ASSIGNED (CBMC does not follow pointers that are merely assumed equal to an address) */ \
     relay->src_conn = XV_CONN(XV_DIR); relay->dst_conn = XV_CONN(1 - XV_DIR); \
